@@ -42,15 +42,18 @@ type Event struct {
 }
 
 type actor struct {
-	id      ID
-	gid     int64
-	resume  chan struct{}
-	parked  bool
-	silent  bool // parked at an idle point of the harness (no event)
-	point   string
-	done    bool
-	adopted bool
-	goActor bool
+	id     ID
+	gid    int64
+	resume chan struct{}
+	parked bool
+	silent bool // parked at an idle point of the harness (no event)
+	point  string
+	done   bool
+	// finishing: an adopted goroutine passed its terminal point but still exists (it may yet unblock others on its
+	// way out: wg.Done, deferred unlocks); it counts as running until it is gone from the runtime's goroutine list
+	finishing bool
+	adopted   bool
+	goActor   bool
 }
 
 type Outcome int
@@ -183,7 +186,7 @@ func (c *Controller) at(point string, a, b uint64, f map[string]any, mayPark boo
 				act = &actor{id: id, resume: make(chan struct{}, 1)}
 				c.actors[id] = act
 			}
-			act.done, act.parked, act.adopted, act.gid = false, false, true, gid
+			act.done, act.finishing, act.parked, act.adopted, act.gid = false, false, false, true, gid
 			c.byGoid[gid] = act
 		}
 	}
@@ -194,7 +197,7 @@ func (c *Controller) at(point string, a, b uint64, f map[string]any, mayPark boo
 	c.seq++
 	c.events = append(c.events, Event{Seq: c.seq, Actor: act.id, Point: point, A: a, B: b, F: f})
 	if act.adopted && c.Terminal != nil && c.Terminal(act.id, point) {
-		act.done = true
+		act.finishing = true
 		delete(c.byGoid, gid)
 		c.cond.Broadcast()
 		c.mu.Unlock()
@@ -218,7 +221,7 @@ func (c *Controller) Where(id ID) string {
 	if a == nil {
 		return ""
 	}
-	if a.done {
+	if a.done || a.finishing {
 		return "done"
 	}
 	if a.parked {
@@ -308,6 +311,20 @@ func (c *Controller) settle(deadline time.Time) (ok bool) {
 		all := true
 		for _, a := range live {
 			st, found := states[a.gid]
+			if a.finishing {
+				if !found { // the goroutine is gone: now the actor is really finished
+					c.mu.Lock()
+					if a.finishing && a.gid != 0 {
+						if _, again := c.byGoid[a.gid]; !again {
+							a.finishing, a.done = false, true
+							c.cond.Broadcast()
+						}
+					}
+					c.mu.Unlock()
+				}
+				all = false
+				continue
+			}
 			if !found || !blockedState(st) {
 				all = false
 				break
@@ -445,9 +462,15 @@ func (c *Controller) FreeRun() {
 func (c *Controller) WaitAllDone(d time.Duration) []ID {
 	deadline := time.Now().Add(d)
 	for {
+		states := c.goroutineStates()
 		c.mu.Lock()
 		var nd []ID
 		for _, a := range c.actors {
+			if a.finishing {
+				if _, found := states[a.gid]; !found {
+					a.finishing, a.done = false, true
+				}
+			}
 			if a.parked && c.free {
 				a.parked = false
 				select {
